@@ -203,6 +203,16 @@ class _E1(ast.NodeTransformer):
         info = self.callee_info(n) if self.callee_info is not None else None
         self.generic_visit(n)
         f = n.func
+        # boolean flags of numpy routines spelled 0 / 1
+        for k in n.keywords:
+            if k.arg in ('rowvar', 'keepdims', 'bias', 'endpoint', 'full_matrices', 'compute_uv', 'edge_truncate') and isinstance(k.value, ast.Constant) \
+                    and type(k.value.value) is int and k.value.value in (0, 1):
+                k.value = ast.copy_location(ast.Constant(value=bool(k.value.value)), k.value)
+        # (f if c else g)(args)  ->  f(args) if c else g(args)      (args without effects)
+        if isinstance(f, ast.IfExp) and all(_pure_expr(a) for a in n.args) and all(_pure_expr(k.value) for k in n.keywords):
+            a_ = ast.Call(func=f.body, args=[clone(x) for x in n.args], keywords=[ast.keyword(arg=k.arg, value=clone(k.value)) for k in n.keywords])
+            b_ = ast.Call(func=f.orelse, args=n.args, keywords=n.keywords)
+            return ast.fix_missing_locations(ast.copy_location(ast.IfExp(test=f.test, body=self.visit_Call(a_), orelse=self.visit_Call(b_)), n))
         # a package function that only returns a literal (default_skyversion() -> 2) reads as that literal
         if info is not None and len(info) > 2 and info[2] is not None and not n.args and not n.keywords:
             body = [st for st in info[2].body if not (isinstance(st, ast.Expr) and isinstance(st.value, ast.Constant))]
@@ -274,7 +284,7 @@ class _E1(ast.NodeTransformer):
                     op = {'bitwise_and': ast.BitAnd, 'bitwise_or': ast.BitOr, 'bitwise_xor': ast.BitXor}[f.attr]()
                     return ast.copy_location(ast.BinOp(left=n.args[0], op=op, right=n.args[1]), n)
             # function form of array methods: np.sum(x, axis=k) == x.sum(k), np.transpose(x) == x.T, np.argsort(x) == x.argsort()
-            if f.attr in ('sum', 'mean', 'min', 'max', 'any', 'all', 'argsort', 'cumsum', 'nonzero') and n.args:
+            if f.attr in ('sum', 'mean', 'min', 'max', 'any', 'all', 'argsort', 'cumsum', 'nonzero', 'std', 'var', 'prod', 'argmax', 'argmin', 'cumprod') and n.args:
                 recv = n.args[0]
                 n = ast.copy_location(ast.Call(func=ast.Attribute(value=recv, attr=f.attr, ctx=ast.Load()), args=n.args[1:], keywords=n.keywords), n)
                 f = n.func
@@ -295,7 +305,8 @@ class _E1(ast.NodeTransformer):
         # x.transpose() == x.T ; x.sum(axis=k) == x.sum(k)
         if isinstance(f, ast.Attribute) and f.attr == 'transpose' and not n.args and not n.keywords:
             return ast.copy_location(ast.Attribute(value=f.value, attr='T', ctx=ast.Load()), n)
-        if isinstance(f, ast.Attribute) and f.attr in ('sum', 'mean', 'min', 'max', 'any', 'all', 'cumsum', 'argsort') and not n.args \
+        if isinstance(f, ast.Attribute) and f.attr in ('sum', 'mean', 'min', 'max', 'any', 'all', 'cumsum', 'argsort', 'std', 'var', 'prod', 'argmax',
+                                                       'argmin', 'cumprod') and not n.args \
                 and len(n.keywords) == 1 and n.keywords[0].arg == 'axis':
             n.args = [n.keywords[0].value]
             n.keywords = []
